@@ -239,7 +239,7 @@ def _sat_conj0(conj):
     # token-layout facts of split/splitn (layout.py)
     import layout
     lin_atoms = [a for a in conj if a[0] in ('ge0', 'eq0') or (a[0] == 'not' and a[1][0] == 'eq0')]
-    lf, alts = layout.facts(list(pos) + lin_atoms, list(negs))
+    lf, alts = layout.facts(list(pos) + lin_atoms, list(negs))      # negs: atoms asserted false (without the 'not')
     if lf == 'unsat':
         return False
     if lf:
